@@ -434,7 +434,7 @@ func sliceElems(v any) (elems []any, ok bool) {
 // IsFallbackKind tells whether the value is rendered by the fallback formatter.
 func IsFallbackKind(kind string) bool {
 	switch kind {
-	case "struct", "map", "named-int", "named-string", "array", "[]any", "uintptr", "[]error", "ptr-struct", "map-any":
+	case "struct", "map", "named-int", "named-string", "array", "[]any", "uintptr", "[]error", "ptr-struct", "map-any", "logvaluer", "doc-marshaller":
 		return true
 	}
 	return false
